@@ -226,13 +226,8 @@ BODYSETS = {
     # (private_enforce / private_enforce_with_context, the role-link builders of assertion.rs / default_model.rs and
     #  DefaultModel::clear_policy are TRANSLATED and proved equal to the model: PcEnforceGen.v, PcLinksGen.v)
     "enf": [
-        ("register_g_functions", ENF, fnre("register_g_functions")),
-        ("new_raw", ENF, fnre("new_raw", True)),
-        ("new", ENF, fnre("new", True), impl_start("CoreApi", "Enforcer")),
-        ("enforce", ENF, fnre("enforce"), impl_start("CoreApi", "Enforcer")),
-        ("enforce_with_context", ENF, fnre("enforce_with_context"), impl_start("CoreApi", "Enforcer")),
-        ("build_incremental_role_links", ENF, fnre("build_incremental_role_links"), impl_start("CoreApi", "Enforcer")),
-        ("emit", ENF, fnre("emit"), impl_start(r"EventEmitter<Event>", "Enforcer")),
+        # nothing of enforcer.rs is hash-pinned any more: parts 7 (sequencing methods), 10 (the two enforcement loops) and 15
+        # (register_g_functions, new_raw / new, the enforce wrappers, build_incremental_role_links, on / off / emit) translate it
     ],
     "model": [
         ("add_def", DM, fnre("add_def")),
@@ -267,9 +262,8 @@ BODYSETS = {
             ("remove_filtered_policy", True)]
     ],
     "util": [
-        ("escape_assertion", "src/util.rs", fnre("escape_assertion")),
-        ("escape_eval", "src/util.rs", fnre("escape_eval")),
-        ("parse_csv_line", "src/util.rs", fnre("parse_csv_line")),
+        # escape_assertion, escape_eval, parse_csv_line (and the regex literals they use) are TRANSLATED through the regex
+        # semantics of Gen/Regex.v (tools/rs2coq_regex.py, PinChecks/PcRegexGen.v), not hash-pinned
         ("config_parse_buffer", "src/config.rs", fnre("parse_buffer", True)),
         ("config_add_config", "src/config.rs", fnre("add_config")),
         ("config_get", "src/config.rs", fnre("get")),
@@ -283,6 +277,7 @@ BODYSETS = {
 
 
 TRANSLATED_BODIES = {
+    "src/emitter.rs": ["notify_logger_and_watcher", "clear_cache"],     # rs2coq part 15
     "src/management_api.rs": ["add_policy", "add_policies", "remove_policy", "remove_policies", "add_named_policy", "add_named_policies",
                               "remove_named_policy", "remove_named_policies", "add_grouping_policy", "add_grouping_policies",
                               "remove_grouping_policy", "remove_grouping_policies", "add_named_grouping_policy", "add_named_grouping_policies",
